@@ -8,6 +8,7 @@ import itertools
 from mc import pool, seams, canon, factory_engine as F
 
 NAMES = ["a", "b", "c"]
+TWINS = ["caf\u00e9", "cafe\u0301", "\u2126"]
 # contents that are not `if` blocks: replacefilter takes any parsed command (an unconditional top-level action)
 PARSED = {"p1": 'redirect "bare@example.com";\n', "p2": "keep;\n"}
 
@@ -34,6 +35,14 @@ def events(rich=False):
         ev.append(("move", o, "up"))
         ev.append(("move", o, "down"))
     ev.append(("replace", "a", ("parsed", "p2"), None, None))
+    # names that are canonically equivalent but different strings (NFC / NFD, OHM SIGN / OMEGA): distinct filters
+    for n in TWINS:
+        ev.append(("add", n, "d1"))
+        ev.append(("remove", n))
+        ev.append(("disable", n))
+    ev.append(("update", TWINS[0], TWINS[1], "d2"))
+    ev.append(("update", "a", TWINS[2], "d2"))
+    ev.append(("replace", TWINS[1], ("fresh", "d2"), TWINS[0], None))
     ev.append(("disable", b"a"))
     ev.append(("remove", b"b"))
     ev.append(("replace", "a", ("fresh", "d2"), b"a", None))
@@ -302,9 +311,12 @@ def task(t):
 
         rec([evs[first]])
         return dict(n=n, states=len(states), violations=viols, sample=None)
-    # BFS to closure with dedup
+    # BFS to closure with dedup (the canonically-equivalent twin names are left to the undeduplicated sequences: three more names
+    # would multiply the reachable states without adding a new kind of transition)
     seen = set()
-    frontier = [[evs[first]]]
+    first_ev = evs[first]
+    evs = [e for e in evs if not any(x in TWINS for x in e if isinstance(x, str))]
+    frontier = [[first_ev]]
     bad, fs, model, i = replay_history(frontier[0], ns)
     n += 1
     if bad and bad != "skip":
@@ -342,7 +354,7 @@ def run(tier, seed):
     evs = events()
     all_depth = 3 if tier == "quick" else 4
     bfs_depth = 6 if tier == "quick" else 12
-    tasks = [("all", i, all_depth) for i in range(len(evs))] + [("bfs", i, bfs_depth) for i in range(len(evs)) if evs[i][0] == "add"]
+    tasks = [("all", i, all_depth) for i in range(len(evs))] + [("bfs", i, bfs_depth) for i in range(len(evs)) if evs[i][0] == "add" and evs[i][1] not in TWINS]
     # the same events on a set loaded from a parse result that a second set shares
     tasks += [("loaded", i, all_depth - 1) for i in range(len(evs))]
     res = pool.run_tasks("checks.c12:task", tasks)
